@@ -331,7 +331,7 @@ def check_sections(fx, rep, rule, wv, seqs):
                             construct="expected exactly one flatten loop after the record loop, found %d" % len(flat_loop))
             return results
         FL_ = flat_loop[0]
-        drv = None
+        drv = FL_.get("driver")         # (a loop synthesised from `it.map(<effectful closure>).collect()` knows its driver)
         for n in F.walk(FL_["node"]["body"]):
             if F.is_call(n, "std::iter::Iterator::next"):
                 v = F.strip(n["args"][0])
@@ -421,6 +421,11 @@ def check_sections(fx, rep, rule, wv, seqs):
             got = strip_cast_t(off[1]) if off else None
             key = "%s/tiling/%s_offset<-%s" % (rule.split(".")[0], X, "len(%s)" % (got[2][0][1] if got and got[0] == "call" and got[2] and got[2][0][0] == "loop" else "?"))
             good = off is not None and got == want_off
+            if not good and off is not None and vec and got == ("call", "std::vec::Vec::len", (("place", vec, ()),)):
+                # the length read through the `&mut Vec` a helper received: it is the loop-entry length as long as nothing in this
+                # iteration touched the vector before the read (the extend comes later, checked below)
+                touched = [i_ for i_, e_ in enumerate(effs) if i_ < off[0] and e_[0] == "call" and e_[2] and e_[2][0] == ("place", vec, ())]
+                good = not touched
             if not good and off is not None and got is not None and got[0] == "loop" and got[2] == idx:
                 # alternative: a running total. offset <- V where V is 0 before the flatten loop and every iteration adds exactly
                 # this class's own entry count for this section (per-class counts = pushes: the counter-pairing rule)
